@@ -107,15 +107,16 @@ fn run_reader(chunks: Vec<Vec<u8>>) -> Result<Vec<Vec<u8>>, String> {
 /// one; how TCP groups them into reads is up to the kernel, which the property allows: any partition) that is closed
 /// at the end, or loopback UDP datagrams (one datagram per read: exact chunk boundaries; the stream never ends, so the
 /// frames are collected until nothing has arrived for 150 ms).
-fn run_reader_socket(chunks: Vec<Vec<u8>>, udp: bool) -> Result<Vec<Vec<u8>>, String> {
+fn run_reader_socket(chunks: Vec<Vec<u8>>, udp: bool) -> Result<Option<Vec<Vec<u8>>>, String> {
     use tokio::io::AsyncWriteExt;
     catch(|| {
-        let rt = tokio::runtime::Builder::new_current_thread().enable_all().build().expect("runtime");
+        // anything that goes wrong with the sockets themselves (no free port, ...) is the harness's problem: None
+        let Ok(rt) = tokio::runtime::Builder::new_current_thread().enable_all().build() else { return None };
         rt.block_on(async {
             let mut out = vec![];
             if !udp {
-                let l = tokio::net::TcpListener::bind("127.0.0.1:0").await.expect("bind");
-                let addr = l.local_addr().expect("addr");
+                let Ok(l) = tokio::net::TcpListener::bind("127.0.0.1:0").await else { return None };
+                let Ok(addr) = l.local_addr() else { return None };
                 let writer = tokio::spawn(async move {
                     if let Ok((mut s, _)) = l.accept().await {
                         let _ = s.set_nodelay(true);
@@ -127,7 +128,7 @@ fn run_reader_socket(chunks: Vec<Vec<u8>>, udp: bool) -> Result<Vec<Vec<u8>>, St
                         let _ = s.shutdown().await;
                     }
                 });
-                let stream = tokio::net::TcpStream::connect(addr).await.expect("connect");
+                let Ok(stream) = tokio::net::TcpStream::connect(addr).await else { return None };
                 let s = next_msg(DataSource::Tcp(stream)).await;
                 futures_util::pin_mut!(s);
                 while let Some(m) = s.next().await {
@@ -138,9 +139,9 @@ fn run_reader_socket(chunks: Vec<Vec<u8>>, udp: bool) -> Result<Vec<Vec<u8>>, St
                 }
                 let _ = writer.await;
             } else {
-                let rx = tokio::net::UdpSocket::bind("127.0.0.1:0").await.expect("bind");
-                let addr = rx.local_addr().expect("addr");
-                let tx = tokio::net::UdpSocket::bind("127.0.0.1:0").await.expect("bind");
+                let Ok(rx) = tokio::net::UdpSocket::bind("127.0.0.1:0").await else { return None };
+                let Ok(addr) = rx.local_addr() else { return None };
+                let Ok(tx) = tokio::net::UdpSocket::bind("127.0.0.1:0").await else { return None };
                 for c in chunks.iter().filter(|c| !c.is_empty()) {
                     let _ = tx.send_to(c, addr).await;
                 }
@@ -153,7 +154,7 @@ fn run_reader_socket(chunks: Vec<Vec<u8>>, udp: bool) -> Result<Vec<Vec<u8>>, St
                     }
                 }
             }
-            out
+            Some(out)
         })
     })
 }
@@ -198,11 +199,15 @@ pub fn check_case_via(ctx: &Ctx, frames: &[Vec<u8>], cuts: &[usize], via: u8) ->
     }
     let chunks = split(&stream, cuts);
     let got = match via {
-        0 => run_reader(chunks.clone()),
+        0 => run_reader(chunks.clone()).map(Some),
         1 => run_reader_socket(chunks.clone(), false),
         _ => run_reader_socket(chunks.clone(), true),
     }
     .map_err(|p| fail("panic", p))?;
+    let Some(got) = got else {
+        ctx.exclude("loopback socket could not be set up (no free port): case not judged");
+        return Ok(());
+    };
     let whole = run_reader(split(&stream, &[])).map_err(|p| fail("panic-whole", p))?;
     let nesc = stream.len() - frames.iter().map(|f| f.len()).sum::<usize>();
     // a cut strictly inside a frame?
@@ -348,7 +353,7 @@ pub fn run(ctx: &Ctx) {
     });
     // the reader's real socket arms: loopback TCP (closed at the end) and loopback UDP (one datagram per read)
     (0..shards).into_par_iter().for_each(|s| {
-        run_prop(ctx, &format!("tcp-{s}"), ctx.tier.pick(3_200u32, 64_000u32) / shards, (frames_strategy(12), proptest::collection::vec(any::<proptest::sample::Index>(), 0..12)), |(frames, idx)| {
+        run_prop(ctx, &format!("tcp-{s}"), ctx.tier.pick(3_200u32, 16_000u32) / shards, (frames_strategy(12), proptest::collection::vec(any::<proptest::sample::Index>(), 0..12)), |(frames, idx)| {
             let len: usize = frames.iter().map(|f| escape(f).len()).sum();
             let cuts: Vec<usize> = idx.iter().map(|i| 1 + i.index(len.max(2) - 1)).collect();
             ctx.class("sequence through a loopback TCP connection");
